@@ -14,7 +14,7 @@ from vlib import Check, ModelError
 from c12 import rotations
 
 SPEC = os.path.join(vlib.ROOT, "spec", "Geom")
-P_INV = ["P_Lattice_NoError", "P_Lattice_Pressure", "P_Lattice_Tension", "P_NetForceZero", "P_NetTorqueZero", "P_RigidCovariance", "P_EnergyGradients"]
+P_INV = ["P_Lattice_NoError", "P_Lattice_Pressure", "P_Lattice_Tension", "P_NetForceZero", "P_NetTorqueZero", "P_RigidCovariance", "P_StorageOrder", "P_EnergyGradients"]
 
 
 def cases(tier, seed):
